@@ -25,7 +25,7 @@ pub const INFO14: PropInfo = PropInfo {
     level: "exploration",
     rule: "cases = (payload length n around every buffer boundary of the simulated pipe (PIPE_BUF 512, PIPE_SIZE 1024) up to 4x capacity, trailing newlines 0-3, shape: gen|sink, gen|cat{1-3}|sink, x=$(gen), x=$(gen|cat), nested $( $( ) ), here-document into sink, variable echoed into a pipeline; standard descriptors 0/1/2 closed with exec beforehand in 6 combinations so that pipe ends land on the standard numbers; schedule set as in C13). Oracle: bytes received by sink == bytes produced (length, content), $( ) value == payload minus exactly its trailing newlines, here-document body byte for byte, no deadlock, empty stderr, status 0. Non-trivial = n > PIPE_BUF or >= 2 stages, under a non-FIFO schedule; distinct by (n, trailing, shape, schedule).",
     assumptions: &[
-        "payloads are NUL-free ASCII with embedded newlines (position-dependent pattern, so loss, duplication and reordering all change the content)",
+        "payloads are NUL-free text with embedded newlines, either ASCII or mostly 2-4 byte UTF-8 characters (position-dependent pattern, so loss, duplication and reordering all change the content; a character split by a buffer boundary must survive)",
         "interleavings at blocking points and preemption points only",
     ],
 };
@@ -552,6 +552,10 @@ pub struct DataCase {
     /// bit 2: fd 2), so that pipe ends are allocated on the standard descriptor numbers
     #[serde(default)]
     pub pre: u8,
+    /// payload of mostly multi-byte characters (character boundaries fall on every residue of any
+    /// buffer size)
+    #[serde(default)]
+    pub utf8: bool,
 }
 
 fn pre_text(pre: u8) -> String {
@@ -575,7 +579,8 @@ fn cats(k: u8) -> String {
 fn check_data(c: &DataCase) -> Outcome {
     let n = c.n as usize;
     let tn = (c.trailing as usize).min(n);
-    let payload = probes::pattern(n, tn);
+    let payload = if c.utf8 { probes::pattern_utf8(n, tn) } else { probes::pattern(n, tn) };
+    let u = if c.utf8 { " u" } else { "" };
     let stripped: Vec<u8> = {
         let mut v = payload.clone();
         while v.last() == Some(&b'\n') {
@@ -585,9 +590,9 @@ fn check_data(c: &DataCase) -> Outcome {
     };
     let text = String::from_utf8(payload.clone()).unwrap();
     let (script, want_sink, want_var): (String, Option<Vec<u8>>, Option<Vec<u8>>) = match c.shape {
-        Shape::Pipe(k) => (format!("gen {n} {tn}{} | sink s\nsnap end\n", cats(k)), Some(payload.clone()), None),
-        Shape::Subst(k) => (format!("x=$(gen {n} {tn}{})\nsnap end\n", cats(k)), None, Some(stripped.clone())),
-        Shape::Nested => (format!("x=$(echo \"$(gen {n} {tn})\")\nsnap end\n"), None, Some(stripped.clone())),
+        Shape::Pipe(k) => (format!("gen {n} {tn}{u}{} | sink s\nsnap end\n", cats(k)), Some(payload.clone()), None),
+        Shape::Subst(k) => (format!("x=$(gen {n} {tn}{u}{})\nsnap end\n", cats(k)), None, Some(stripped.clone())),
+        Shape::Nested => (format!("x=$(echo \"$(gen {n} {tn}{u})\")\nsnap end\n"), None, Some(stripped.clone())),
         Shape::HereDoc => {
             // the body of a here-document is a sequence of lines: payload must end with a newline
             let mut body = String::from_utf8(stripped.clone()).unwrap();
@@ -661,6 +666,7 @@ fn check_data(c: &DataCase) -> Outcome {
         .class_if(c.pre & 1 != 0, "stdout-closed-before")
         .class_if(c.pre & 2 != 0, "stdin-closed-before")
         .class_if(c.pre & 4 != 0, "stderr-closed-before")
+        .class_if(c.utf8, "multi-byte-payload")
 }
 
 pub static DATA: Driver<DataCase> = Driver::new("C14", "data", check_data);
@@ -689,15 +695,17 @@ pub fn run14(ctx: &Ctx, st: &mut Stats) {
         let trailing = (r % 4) as u8;
         let n = SIZES[(r / 4) as usize];
         let chooser = if sc == 0 { Chooser::Fifo } else { Chooser::Seeded(seed.wrapping_mul(1000).wrapping_add(i)) };
-        Some(DataCase { n, trailing, shape, chooser, pre })
+        // the multi-byte payload on the plain descriptor set-up (alternating), ASCII otherwise
+        let utf8 = pre == 0 && sc % 2 == 1;
+        Some(DataCase { n, trailing, shape, chooser, pre, utf8 })
     };
     DATA.run_exhaustive(ctx, st, total, &decode);
     st.exhaustive_drivers.retain(|d| d != "data"); // the schedule dimension is sampled, not enumerated
     // random sizes, scripted (shrinkable) schedules
     let n = ctx.tier.pick(60_000, 3_000_000);
     DATA.run_random(ctx, st, n, || {
-        (0u16..4200, 0u8..4, prop::sample::select(shapes()), prop::collection::vec(any::<u8>(), 0..200), prop_oneof![3 => Just(0u8), 2 => 0u8..8])
-            .prop_map(|(n, trailing, shape, v, pre)| DataCase { n, trailing, shape, chooser: Chooser::Scripted(v), pre })
+        (0u16..4200, 0u8..4, prop::sample::select(shapes()), prop::collection::vec(any::<u8>(), 0..200), prop_oneof![3 => Just(0u8), 2 => 0u8..8], prop::bool::weighted(0.4))
+            .prop_map(|(n, trailing, shape, v, pre, utf8)| DataCase { n, trailing, shape, chooser: Chooser::Scripted(v), pre, utf8 })
     });
     // exhaustive DFS over schedules for a few small transfers
     let mut dfs_runs = 0u64;
@@ -710,7 +718,7 @@ pub fn run14(ctx: &Ctx, st: &mut Stats) {
             |chooser| {
                 // run through check_data to share the oracle; the RunResult is recomputed there, so
                 // here only the schedule log is needed
-                let c = DataCase { n, trailing: 1, shape, chooser: chooser.clone(), pre: 0 };
+                let c = DataCase { n, trailing: 1, shape, chooser: chooser.clone(), pre: 0, utf8: false };
                 let (out, _) = DATA.eval(&c);
                 if let Verdict::Fail(m) = out.verdict {
                     fail.get_or_insert(Failure { driver: "data".into(), case: serde_json::to_value(&c).unwrap(), message: m });
